@@ -35,17 +35,67 @@ def splitRows : List Nat → List Nat → List (List Nat)
 
 def unpack (chunk : Nat × Nat) : List (List Nat) := splitRows (digits chunk.2 chunk.1) []
 
-def accepted (T : SigTables) (row : List Nat) : Bool :=
-  match decodeInstance row with
-  | some (i, ops) => validate T i ops == .ok
-  | none => false
+/-- the instruction data a bucket of rows needs, by instruction id -/
+def lookupR (rs : List (Nat × ResolvedInst)) (id : Nat) : Option ResolvedInst := (rs.find? (·.1 == id)).map (·.2)
 
-def refused (T : SigTables) (row : List Nat) : Bool :=
-  match decodeInstance row with
-  | some (i, ops) => validate T i ops != .ok
-  | none => false
+/-- one row = expectation (1: the database allows the mode, the validator must accept; 0: excluded mode, must refuse)
+    followed by the instance -/
+def rowOk (rs : List (Nat × ResolvedInst)) (row : List Nat) : Bool :=
+  match row with
+  | [] => false
+  | exp :: rest =>
+    match decodeInstance rest with
+    | none => false
+    | some (i, ops) =>
+      match lookupR rs i.id with
+      | none => false
+      | some R => if exp = 1 then validateR R i ops == .ok else validateR R i ops != .ok
 
-def allAccepted (T : SigTables) (chunk : Nat × Nat) : Bool := (unpack chunk).all (accepted T)
-def allRefused (T : SigTables) (chunk : Nat × Nat) : Bool := (unpack chunk).all (refused T)
+def bucketOk (rs : List (Nat × ResolvedInst)) (chunk : Nat × Nat) : Bool := (unpack chunk).all (rowOk rs)
+
+/-- the per-bucket copy of the instruction data is what the tables say -/
+def resolvedOk (T : SigTables) (rs : List (Nat × ResolvedInst)) : Bool := rs.all fun (id, R) => resolve T id == some R
+
+/-- a checked row, stated about the validator over the full tables -/
+theorem rowOk_sound (T : SigTables) (rs : List (Nat × ResolvedInst)) (hrs : resolvedOk T rs = true) (row : List Nat)
+    (h : rowOk rs row = true) :
+    ∃ exp rest i ops, row = exp :: rest ∧ decodeInstance rest = some (i, ops) ∧
+      (exp = 1 → validate T i ops = .ok) ∧ (exp ≠ 1 → validate T i ops ≠ .ok) := by
+  unfold rowOk at h
+  cases row with
+  | nil => exact absurd h (by simp)
+  | cons exp rest =>
+    simp only at h
+    cases hd : decodeInstance rest with
+    | none => rw [hd] at h; exact absurd h (by simp)
+    | some p =>
+      obtain ⟨i, ops⟩ := p
+      rw [hd] at h
+      simp only at h
+      cases hl : lookupR rs i.id with
+      | none => rw [hl] at h; exact absurd h (by simp)
+      | some R =>
+        rw [hl] at h
+        simp only at h
+        have hres : resolve T i.id = some R := by
+          unfold lookupR at hl
+          cases hf : rs.find? (·.1 == i.id) with
+          | none => rw [hf] at hl; simp at hl
+          | some q =>
+            rw [hf] at hl
+            simp only [Option.map_some, Option.some.injEq] at hl
+            have hm := List.mem_of_find?_eq_some hf
+            have hq := List.find?_some hf
+            have := (List.all_eq_true.mp hrs) q hm
+            obtain ⟨qid, qR⟩ := q
+            simp only at hl hq this
+            have e1 : qid = i.id := by simpa using hq
+            subst hl
+            rw [← e1]
+            simpa using this
+        have hv : validate T i ops = validateR R i ops := by unfold validate; rw [hres]
+        refine ⟨exp, rest, i, ops, rfl, hd, ?_, ?_⟩
+        · intro he; rw [hv]; simpa [he] using h
+        · intro he; rw [hv]; simpa [he] using h
 
 end AsmjitVerif.X86Forms
